@@ -34,7 +34,7 @@ var Prop = &engine.Prop{
 		"domain: clock readings and epochs inside the range of time.Time.UnixNano (1678..2262; UseEpoch cannot express any other epoch), clock - epoch <= 2^(51-nodeBits) - 1 - (number of calls in the case)",
 		"domain: nano generator ts and start values <= MaxInt64 - (number of calls)",
 		"restart seeds are ids the same node can have issued (same layout, same node number)",
-		"mono-wrap puts a MonoNode's unexported step counter (reflect/unsafe, while no call is in flight) a few steps below 4096 right after a call: the state 4000-odd calls inside the current millisecond also reach, which a race-instrumented build (~1 us per call) never produces by itself; if the field does not exist the kind does nothing and says so (mono_step_preset_unavailable)",
+		"mono-wrap puts a MonoNode's step counter (hook snowflake.VerifMonoPresetStep, under the node's mutex, while no call is in flight) a few steps below 4096 right after a call: the state 4000-odd calls inside the current millisecond also reach, which a race-instrumented build (~1 us per call) never produces by itself; if the field does not exist the kind does nothing and says so (mono_step_preset_unavailable)",
 		"MonoNode cannot be given a scripted clock (time.Since): it is observed under the machine's monotonic clock only, with epochs >= 1970 that keep time.Time's monotonic reading; step wraps of MonoNode are counted but not required",
 		"in concurrent rounds the scripted clock only moves forward and the timestamp clause is judged against the reading taken at the call event (the generator's own reading can only be later)",
 		"the Go race detector reports races only on executed interleavings",
